@@ -72,6 +72,7 @@ func Roll(src *rand.PCGSource, dicePoints IntType, mod int) IntType {
 		return dicePoints
 	}
 	if src == nil {
+		verifYield("roll.global")
 		src = randSource
 	}
 
@@ -128,6 +129,7 @@ func RollWoD(src *rand.PCGSource, addLine IntType, pool IntType, points IntType,
 			var reachSuccess bool
 			var reachAddRound bool
 			one := Roll(src, points, mode)
+			verifRoll(src, points, mode, one, "wod")
 
 			if addLine != 0 {
 				reachAddRound = one >= addLine
@@ -226,6 +228,7 @@ func RollDoubleCross(src *rand.PCGSource, addLine IntType, pool IntType, points 
 
 		for i := IntType(0); i < pool; i++ {
 			one := Roll(src, points, mode)
+			verifRoll(src, points, mode, one, "dc")
 			if one > maxDice {
 				maxDice = one
 			}
@@ -292,6 +295,7 @@ func RollCommon(src *rand.PCGSource, times, dicePoints IntType, diceMin, diceMax
 	var nums []IntType
 	for i := IntType(0); i < times; i += 1 {
 		die := Roll(src, dicePoints, mode)
+		verifRoll(src, dicePoints, mode, die, "common")
 		if diceMax != nil {
 			if die > *diceMax {
 				die = *diceMax
@@ -375,6 +379,7 @@ func RollCommon(src *rand.PCGSource, times, dicePoints IntType, diceMin, diceMax
 
 func RollCoC(src *rand.PCGSource, isBonus bool, diceNum IntType, mode int) (IntType, string) {
 	diceResult := Roll(src, 100, mode)
+	verifRoll(src, 100, mode, diceResult, "coc.d100")
 	diceTens := diceResult / 10
 	diceUnits := diceResult % 10
 
@@ -385,6 +390,7 @@ func RollCoC(src *rand.PCGSource, isBonus bool, diceNum IntType, mode int) (IntT
 
 	for i := IntType(0); i < diceNum; i++ {
 		n := Roll(src, 10, mode)
+		verifRoll(src, 10, mode, n, "coc.tens")
 
 		if n == 10 {
 			num10Exists = true
@@ -428,6 +434,7 @@ func RollFate(src *rand.PCGSource, mode int) (IntType, string) {
 	sum := IntType(0)
 	for i := 0; i < 4; i++ {
 		n := Roll(src, 3, mode) - 2
+		verifRoll(src, 3, mode, n+2, "fate")
 		sum += n
 		switch n {
 		case -1:
